@@ -968,7 +968,7 @@ def phase_sweep(run, pool, maxlen):
             elif prev[0] != dig and len(conflicts) < 5:
                 conflicts.append((key, prev, (dig, job["letters"], job["program"])))
 
-    large = large_programs_c18() + matrix_programs_c18()
+    large = large_programs_c18(heavy=maxlen >= 3) + matrix_programs_c18()
 
     def all_jobs():
         for j, p in enumerate(large):
@@ -1154,7 +1154,7 @@ def phase_diff(run, pool, budget_s):
 # algorithm classes, i.e. Krylov bases with >= 2**18 entries) on cheap banded/diagonal operators: the same routine is
 # run on two different operators / arrays of equal shape and every result of the first call is still held.
 # =========================================================================================
-def large_programs_c18(n=300):
+def large_programs_c18(n=300, heavy=False):
     out = []
     D1 = _psd({"k": "diag", "n": n, "dtype": "f8", "seed": 71})
     D2 = _psd({"k": "diag", "n": n, "dtype": "f8", "seed": 72})
@@ -1247,6 +1247,28 @@ def large_programs_c18(n=300):
             st["id"] = j
         out.append({"name": "flood/%s" % fam,
                     "program": {"property": "C18", "run_seed": 0, "rng0": 4, "config": {"large": "flood/" + fam},
+                                "mode": "explicit", "steps": steps}})
+    # options given ONCE through an Auto object must not become the defaults of later calls: default call, the same entry
+    # point with Auto(options) on another operand, the default call again (n = 1001: Auto takes its iterative branches)
+    m_ = 1001
+    La = _psd({"k": "no_dispatch", "of": {"k": "diag", "n": m_, "dtype": "f8", "seed": 85}})
+    Lb = _psd({"k": "no_dispatch", "of": {"k": "diag", "n": m_, "dtype": "f8", "seed": 86}})
+    wv = arr([m_], "f8", 87)
+    for ename, dflt, withopts in [
+            ("solve", call("solve", A=S("La"), b=wv), call("solve", A=S("Lb"), b=wv, alg="Auto", akw={"max_iters": 2, "tol": 1e-2})),
+            ("inv_apply", call("solve", A=S("La"), b=wv), call("inv", A=S("Lb"), alg="Auto", akw={"max_iters": 2})),
+            ("eig", call("eig", A=S("La"), k=2, which="LM"), call("eig", A=S("Lb"), k=2, which="LM", alg="Auto", akw={"max_iters": 3})),
+            ("logdet", call("logdet", A=S("La")), call("logdet", A=S("Lb"), alg="Auto", akw={"tol": 1e-1, "max_iters": 3})),
+            ("sqrt_apply", call("unary_apply", A=S("La"), f="sqrt", x=wv),
+             call("unary_apply", A=S("Lb"), f="sqrt", x=wv, alg="Auto", akw={"max_iters": 3})),
+            ("trace", call("trace_default", A=S("La")), call("trace_auto", A=S("Lb"), tol=0.5, max_iters=1))]:
+        if ename in ("logdet", "sqrt_apply", "eig") and not heavy:  # 25-65 s each at n = 1001: thorough tier only
+            continue
+        steps = copy.deepcopy([mk("La", La), mk("Lb", Lb), dflt, withopts, dict(dflt, repeat_of=2)])
+        for j, st in enumerate(steps):
+            st["id"] = j
+        out.append({"name": "auto_options_leak/%s" % ename,
+                    "program": {"property": "C18", "run_seed": 0, "rng0": 4, "config": {"large": "auto_options_leak/" + ename},
                                 "mode": "explicit", "steps": steps}})
     # churn: hundreds / thousands of array-less composites of a class are built and discarded (containers and instances go
     # back to the free lists), then an array-bearing instance of the SAME concrete class is built (its containers reuse the
